@@ -239,6 +239,9 @@ fn judge_place(rec: &mut Recorder, c: &place::PlaceCase, ex: Exec, _hello: &Valu
         FakeSel::SynthAbs { api, .. } => format!("synth-abs-api{}", api % 3),
     };
     rec.class(&format!("{tclass}/{}{}", flav, if o.straddles { "/straddle" } else { "" }));
+    if o.mprotect_fault_hit {
+        rec.class(&format!("an-mprotect-of-the-installation-failed/{}", o.status));
+    }
     if o.sibling_faked {
         rec.class(if o.straddles { "sibling-in-the-same-page-faked-first/straddle" } else { "sibling-in-the-same-page-faked-first" });
     }
